@@ -1,5 +1,5 @@
 (* Driver for the C06 model (Model/StreamRead.v).
-   case:   <ipc> ; ops ; beh0 | beh1 | ... ; allocs ; oracle
+   case:   <pipe> <ipc> ; ops ; beh0 | beh1 | ... ; allocs ; oracle   (pipe: uv_pipe_t, else tcp)
    ops:    S<tok> (uv_read_start)  T (uv_read_stop)  C (uv_close)  R<raw> (one
            uv_run(UV_RUN_NOWAIT) during which epoll reported <raw> for the descriptor)
    beh:    what the k-th read callback does: S<tok> T C
@@ -45,7 +45,9 @@ let ans_str (a : ans) : string =
 let case (line : string) : string =
   match String.split_on_char ';' line with
   | [hd; ops; behs; als; orc] ->
-      let is_ipc = String.trim hd = "1" in
+      let (pipe, is_ipc) = match split_on ' ' hd with
+        | [p; i] -> (p = "1", i = "1")
+        | _ -> failwith "bad header" in
       let ops = List.map parse_op (split_on ' ' ops) in
       let beha = Array.of_list (List.map (fun b -> List.map parse_cop (split_on ' ' b))
                                   (String.split_on_char '|' behs)) in
@@ -54,7 +56,7 @@ let case (line : string) : string =
       let alf k = if Array.length ala = 0 then { b_base = true; b_len = z_of_int 65536 }
                   else ala.(int_of_nat k mod Array.length ala) in
       let o = List.map parse_ans (split_on ' ' orc) in
-      let (_, evs) = exec { allocs = alf; beh = behf } (init is_ipc o) ops in
+      let (_, evs) = exec { allocs = alf; beh = behf } (init pipe is_ipc o) ops in
       let buf = Buffer.create 1024 in
       let add = Buffer.add_string buf in
       let b01 b = if b then "1" else "0" in
@@ -77,14 +79,14 @@ let case (line : string) : string =
   | _ -> failwith "bad case"
 
 (* mode "mon": a trace in the canonical format (the implementation's own, harness-only
-   upper-case tokens W G H Q U K M skipped) is parsed back into events and judged by the
+   upper-case tokens W G H Q U K M B skipped) is parsed back into events and judged by the
    extracted checker Spec/StreamReadSpec.v [monitor]; prints four 0/1 digits:
    exact stream, alloc paired, silent until restart, no NULL call *)
 let parse_event (tok : string) : event option =
   let arg = String.sub tok 1 (String.length tok - 1) in
   let nat_ s = nat_of_int (int_of_string s) in
   match tok.[0] with
-  | 'W' | 'G' | 'H' | 'Q' | 'U' | 'K' | 'M' -> None
+  | 'W' | 'G' | 'H' | 'Q' | 'U' | 'K' | 'M' | 'B' -> None
   | 'P' -> Some (EPoll (z_of_string arg))
   | 'A' ->
       let arg = if String.length arg > 0 && arg.[0] = '!' then String.sub arg 2 (String.length arg - 2) else arg in
